@@ -8,6 +8,7 @@ import (
 	"reflect"
 	"sort"
 	"strings"
+	"time"
 )
 
 // Call is one logged invocation of an instrumented user function.
@@ -85,8 +86,36 @@ func funcMain(c Config, emit func(*Rep)) {
 		r := newRep(it.ID, c.Prop, it.Shape)
 		t := &FT{ID: it.ID, N: c.PoolN, Seed: itemSeed(c.Seed, it.ID), rep: r, fail: map[string]error{}}
 		cur = t
-		if p := try(func() { it.Run(t) }); p != "" {
-			r.Fail("panic", "the derived code (or the monitor) panicked: %s", p)
+		done := make(chan string, 1)
+		go func() { done <- try(func() { it.Run(t) }) }()
+		select {
+		case p := <-done:
+			if p != "" {
+				r.Fail("panic", "the derived code (or the monitor) panicked: %s", p)
+			}
+		case <-time.After(20 * time.Second):
+			// the item did not come back: decide from two goroutine dumps whether derived code is blocked
+			// for good (same goroutines, blocking states) or merely slow
+			a := derivedGoroutines()
+			time.Sleep(300 * time.Millisecond)
+			b := derivedGoroutines()
+			ida := map[string]bool{}
+			for _, g := range a {
+				ida[g.ID] = true
+			}
+			all := len(b) > 0
+			var st []string
+			for _, g := range b {
+				st = append(st, "goroutine "+g.ID+" ["+g.State+"]")
+				if !ida[g.ID] || !blockedState(g.State) {
+					all = false
+				}
+			}
+			if all {
+				r.Fail("deadlock", "the call into derived code never returned; goroutines in derived code, unchanged over two samples: %s", strings.Join(st, ", "))
+			} else {
+				r.Res.Skipped = "watchdog: item still running after 20 s and derived code is not provably blocked (" + strings.Join(st, ", ") + ")"
+			}
 		}
 		cur = nil
 		emit(r)
